@@ -313,6 +313,15 @@ C perm1(E const& e0)
   return c;
 }
 
+// call-site meaning of a char[N] argument: up to the first NUL, at most N bytes (an unterminated array has no
+// defined call-site formatting; the repository's StringLoggingTest expects exactly its N bytes)
+template <size_t N>
+std::string_view view_n(char const (&a)[N])
+{
+  void const* z = std::memchr(a, 0, N);
+  return std::string_view{a, z ? static_cast<size_t>(static_cast<char const*>(z) - a) : N};
+}
+
 // ------------------------------------------------------------------------------------------ mutation of arguments
 template <class T> struct is_tuple : std::false_type {};
 template <class... A> struct is_tuple<std::tuple<A...>> : std::true_type {};
